@@ -662,3 +662,16 @@ Proof.
   destruct (rest_is_reached na disc ND ls I NW) as (tr' & ls' & R' & A & F & I').
   exists tr', ls'. split; [exact R'|split; [exact A|split; [exact F|apply (final_all_done na ls' I' F)]]].
 Qed.
+
+Lemma lrun_trans : forall na disc ls1 tr1 ls2, lrun na disc ls1 tr1 ls2 -> forall tr2 ls3, lrun na disc ls2 tr2 ls3 ->
+  lrun na disc ls1 (tr1 ++ tr2) ls3.
+Proof. induction 1; intros tr2 ls3 R2; simpl; [exact R2|]. econstructor; eauto. Qed.
+
+(* with the two theorems above: every run of the pool's own machinery that cannot be extended (weak fairness: no thread
+   of the pool that can take a step is left out for ever) has ended in a final state *)
+Lemma maximal_runs_end_final : forall na disc, na || disc = true -> forall n tr ls tr' ls', n >= 1 ->
+  lrun na disc (linit n) tr ls -> lrun na disc ls tr' ls' -> ~ can_progress na ls' -> final ls'.
+Proof.
+  intros na disc ND n tr ls tr' ls' N R R' NP.
+  destruct (deadlock_free na disc ND n (tr ++ tr') ls' N (lrun_trans _ _ _ _ _ R _ _ R')) as [F|P]; [exact F|contradiction].
+Qed.
